@@ -387,6 +387,24 @@ theorem evalPt_mkCcXor (σ) (args : List (Bool × P)) (dflt) (oid) (hnn : ∀ k 
         simp [mkAtMost, mkAtLeast, isLeaf] at hp
 
 
+theorem mkCcAny_node_cls (args : List (Bool × P)) (dflt) (oid) :
+    ∃ i b s v ks m, mkCcAny args dflt oid = .node i b s v ks m ∧ m.cls = .ccAny := by
+  have hp : ∀ a, ∃ i b s v ks m, setDflt (mkAny a oid .ccAny) dflt = .node i b s v ks m ∧ m.cls = .ccAny := by
+    intro a
+    unfold mkAny mkAtLeast
+    cases varOf oid <;> exact ⟨_, _, _, _, _, _, rfl, rfl⟩
+  unfold mkCcAny
+  cases dflt with
+  | nil => exact hp args
+  | cons d ds =>
+      obtain ⟨d1, d2⟩ := d
+      simp only
+      split
+      · exact hp args
+      · split
+        · exact hp args
+        · exact hp _
+
 /-- non-vacuity: the hypothesis of `evalPt_mkCcXor` holds for boolean items under a 0/1 assignment -/
 example : ∀ k ∈ ([((false : Bool), P.leaf "a" ⟨0,1⟩), (false, P.leaf "b" ⟨0,1⟩), (false, P.leaf "c" ⟨0,1⟩)]).map (·.2),
     0 ≤ evalPt (fun i => if i = "b" then 1 else 0) k := by
